@@ -26,7 +26,7 @@ from checks import common
 MINE = {'TemplateRel', 'Event.TemplateRel', 'Sync', 'Event.Sync', 'Identity', 'Counts.total', 'Counts.unique',
         'Counts.bounds', 'Counts.static', 'CarriedOut', 'OutsideTokens', 'OutsideLines', 'Event.OutsideTokens',
         'Event.OutsideLines', 'Event.Chain', 'Final.Chain', 'Event.MatchedNode', 'Terminates', 'Model.Result',
-        'Model.Counts', 'UnknownEvent', 'Loop.Bounded', 'Loop.Complete'}
+        'Model.Counts', 'UnknownEvent', 'Loop.Bounded', 'Loop.Complete', 'Nested.Exhaustive'}
 HARNESS = {'RefAgree', 'Event.RefAgree'}     # spec vs. python reference disagreement = broken machinery, not pfst
 
 _ROW = re.compile(r'<<"CASE", "([^"]*)", (\{[^}]*\}), "([^"]*)", (TRUE|FALSE), (\d+), (\d+), "(\w+)", (TRUE|FALSE), '
@@ -125,7 +125,7 @@ def catalogue_specs(ctx, cases, n_target, base):
     # on the program with several locations of different depth (finite loop: a fresh budget for every location)
     peel_prog = len(PROGRAMS) - 1
     plain = c18_driver.plain_param_programs()
-    peel = [c for c in cases if (c['t'].startswith('e_peel_') or c['t'] == 's_unwrap_b') and c['s']['loop'] > 0
+    peel = [c for c in cases if (c['t'].startswith('e_peel_') or c['t'] == 's_unwrap_b') and c['s']['loop'] != 0
             and c['s']['on'] == 'enter' and c['s']['cb'] and c['s']['count'] == 0 and c['s']['docstr']]
     peel.sort(key=lambda c: (c['p'], c['t'], json.dumps(c['s'], sort_keys=True)))
     for rep in range(1 if ctx.quick else 6):
@@ -156,6 +156,15 @@ def catalogue_specs(ctx, cases, n_target, base):
             if sel(c):
                 specs.append({'kind': 'cat', 'tid': base + len(specs) + 1, 'p': c['p'], 't': c['t'], 'cat': c['cat'],
                               'cfg': c['s'], 'progs': [prog], 'variant': 0, 'lseed': rng.randrange(1 << 20), 'fst': False})
+    # nest block: slice-put templates (unwrap, body + extra statement) on compound statements whose body starts with a
+    # statement of the same kind and has more after it, nested=True, every loop value, both directions
+    nest_prog = prog_with('def nest(a, b, c):')
+    nest = [c for c in cases if c['t'] in ('s_unwrap_b', 's_body_then', 's_before_body') and c['p'] in ('if_', 'while_', 'for_', 'with_')
+            and c['s']['nested'] and c['s']['on'] == 'enter' and c['s']['count'] == 0 and c['s']['cb'] and c['s']['docstr']]
+    nest.sort(key=lambda c: (c['p'], c['t'], json.dumps(c['s'], sort_keys=True)))
+    for c in nest:
+        specs.append({'kind': 'cat', 'tid': base + len(specs) + 1, 'p': c['p'], 't': c['t'], 'cat': c['cat'], 'cfg': c['s'],
+                      'progs': [nest_prog], 'variant': 0, 'lseed': rng.randrange(1 << 20), 'fst': False})
     n_target += len(specs)
     i = 0
     while len(specs) < n_target:
@@ -273,7 +282,7 @@ def run(ctx):
                         'function `arguments` beyond plain parameter lists, ExceptHandler / match_case / comprehension slot forms, string-interior '
                         'slots, __FSO_/__FSS_ overrides are not covered']
     quick = ctx.quick
-    n_cat, n_abs = (750, 220) if quick else (15000, 4000)
+    n_cat, n_abs = (650, 220) if quick else (15000, 4000)
 
     os.environ['OUT_FILE'] = os.path.join(__import__('harness.tlc', fromlist=['x']).scratch(), 'c18cases.json')
     ctx.model('TemplateCases', 'TemplateCases', workers=1, coverage=False, heap='1g')
@@ -321,7 +330,7 @@ def run(ctx):
     collect(ctx, validate(ctx, results))
     ctx.require_clauses(['TemplateRel', 'Event.TemplateRel', 'Sync', 'Identity', 'Counts.total', 'Counts.static',
                          'CarriedOut', 'Event.OutsideTokens', 'Event.OutsideLines', 'OutsideTokens', 'Model.Result',
-                         'Loop.Complete'])
+                         'Loop.Complete', 'Nested.Exhaustive'])
     if ctx.extra.get('substitutions', 0) < (1000 if quick else 15000):
         raise common.Machinery(f'vacuity guard: only {ctx.extra.get("substitutions", 0)} substitutions performed')
 
